@@ -45,7 +45,10 @@ def _tss(t):
     if t[0] == "none":
         return None
     if t[0] == "notseq":
-        return {"int": 7, "gen": (x for x in []), "set": {1}}[t[1]]
+        one = mk_dtm("Dt", 5)
+        # collections that are not sequences: sets, mappings and their views, whatever their length
+        return {"int": 7, "gen": (x for x in []), "set": {1}, "set0": set(), "set1": {one}, "fset1": frozenset([one]), "dict0": {},
+                "dict1": {one: 1}, "keys1": {one: 1}.keys(), "dict2": {one: 1, mk_dtm("Dt", 9): 2}}[t[1]]
     items = [_arg(a) for a in t[1]]
     if t[0] == "userlist":
         import collections
@@ -152,6 +155,28 @@ def run_impl(c):
         return vf.try_impl(f)
     if k == "eq":
         a, b = _build(c["a"]), _build(c["b"])
+        if c.get("used"):
+            # the first Timing has been in use - a waveform was given it and then appended to, another kept it too: a Timing
+            # never changes, so it still equals (or not) what it did when it was made
+            import numpy as np
+            from nitypes.waveform import AnalogWaveform
+            n = 0 if a._timestamps is None else len(a._timestamps)
+            w, other = AnalogWaveform(n, timing=a), AnalogWaveform(n, timing=a)
+            held = w.timing
+            if a._timestamps is not None:
+                last = a._timestamps[-1] if a._timestamps else mk_dtm("Dt", 0)
+                try:
+                    w.append(np.zeros(2), [last, last])
+                except Exception:
+                    pass
+                try:
+                    w.append(other)
+                except Exception:
+                    pass
+            else:
+                w.append(np.zeros(2))
+            if held is not a or other.timing is not a:
+                raise RuntimeError("the waveform did not keep the Timing it was given")
         return {"eq": bool(a == b), "ne": bool(a != b)}
     if k == "empty":
         return _report(Timing.empty)
@@ -241,6 +266,7 @@ def _tss_kinds():
         out.append(["list", [["dtm", fam, 0], ["td", fam, u]]])
         out.append(["list", [["dtm", fam, 0], ["wrong", "int"]]])
     out.append(["list", [["wrong", "str"]]])
+    out += [["notseq", x] for x in ("set0", "set1", "fset1", "dict0", "dict1", "keys1", "dict2")]
     return out
 
 
@@ -302,11 +328,15 @@ def gen_cases(rng, tier):
             fa, fb = fam_of(a), fam_of(b)
             if fa is None or fb is None or fa == fb:
                 cases.append({"k": "eq", "a": a, "b": b})
+                if rng.random() < 0.15:
+                    cases[-1]["used"] = True
+    # a Timing that has been in use (waveforms appended to) still equals a fresh one of the same description
+    used = [{"k": "eq", "a": a, "b": dict(a), "used": True} for a in descs]
     if tier == "quick":
         eqs = [c for c in cases if c["k"] == "eq"]
         rest = [c for c in cases if c["k"] != "eq"]
         cases = rest + rng.sample(eqs, min(len(eqs), 1500))
-    return cases
+    return cases + used
 
 
 def search_cases(rng, literals, tier):
